@@ -57,6 +57,8 @@ REACH_PROBES = ["contested", "same_instant_claims", "kill_me_vs_live_owner", "ki
                 "preamble_unique", "multi_name_owner", "trigger_burst", "kill_me_trigger_burst",
                 "decorator_kill_me_vs_live_owner",
                 "ctx_switch", "claim_after_ctx_switch", "contested_after_ctx_switch", "same_name_owned_in_both_contexts"]
+# probes that can only fire while the defect they observe is present (C13-K1, repaired): not "reach"
+SYMPTOM_PROBES = ["callback_sleeping_during_kill"]
 SHRINK_LISTS = [["ops"], ["spec", "progs"], ["spec", "progs", "*", "steps"]]
 
 NAMES = ["n0", "n1", "n2"]
